@@ -15,7 +15,7 @@ Dependency suites (rules/deps.py; each obligation is a necessary condition of th
 kernel-build (C07.T-conn, C07.T-ite0, C07.R-ite, S.F-memo ite_cache, S.R-node, S.R-new, S.W-store, C06.W-ctor), kernel-restrict
 (C07.R-restrict, S.F-memo restrict_cache) and translation (C09.A-wire, C09.A-term, C09.F-order, C09.A-name, C01.A-hybrid): an answer
 is computed on diagrams built by these functions, on every back-end.  cli-plumbing (C08.F-input, C10.P-cli, C10.F-print): what every answer
-printed by adf-bdd passes through, whatever the semantics."""
+printed by adf-bdd passes through, whatever the semantics. iterator-three (the C20 obligations of ThreeValuedInterpretationsIterator, whose refinements are the candidates)."""
 NOT_DECIDED = "That no complete model lies outside the refinements of the grounded interpretation (a theorem about ADFs, not about code); duplicate-freeness beyond C20."
 TECHNIQUE = "static analysis: expression reconstruction over MIR (index/provenance agreement), finite-domain closure tables, exhaustive-consumption rule"
 
@@ -116,4 +116,5 @@ def check(ctx):
         nx = semantics.X_exhaust(ctx, lib, rule, ("ThreeValuedInterpretationsIterator::new", "from_bdd"), only_fns={"Adf::complete"})
         ctx.floor(rule, "complete chains", nx, 2)
         deps.semantics_base(ctx, lib)
+        deps.iterator(ctx, lib, "three")    # complete enumerates the refinements of grounded through the three-valued iterator
     deps.cli_plumbing(ctx)
